@@ -32,7 +32,7 @@ def layers(tier):
 
 
 def floors(tier):
-    return {"events_deserialized": 6000, "redacted_forms": 1200, "content_roundtrips": 4000,
+    return {"redacted_content_roundtrips": 300, "events_deserialized": 6000, "redacted_forms": 1200, "content_roundtrips": 4000,
             "raw_texts": 1500, "custom_types": 200, "_distinct_nontrivial": 4000}
 
 
@@ -96,6 +96,10 @@ ENUMS_FOR = {
 }
 
 
+REDACTED_WITH_FIELDS = {"m.room.power_levels", "m.room.member", "m.room.create", "m.room.join_rules", "m.room.history_visibility",
+                        "m.room.aliases", "m.room.redaction"}
+
+
 def near_miss_types(rng, etype):
     """unknown event types that are one edit away from a known one (or from a wildcard prefix)"""
     if etype.startswith("m.secret_storage.key."):
@@ -122,9 +126,16 @@ def gen_room_event(rng, kind):
     key = rng.choice(sorted(ge.MESSAGE_LIKE))
     content = ge.content_of(rng, ge.MESSAGE_LIKE, key)
     etype = ge.real_type(key)
-    redacts = rng.choice(ge.EVENTS) if etype == "m.room.redaction" else None
-    if etype == "m.room.redaction" and "redacts" not in content and redacts is None:
-        redacts = rng.choice(ge.EVENTS)
+    redacts = None
+    if etype == "m.room.redaction":
+        # the redacted event's ID at the top level (room versions 1-10), inside content (11) or both
+        shape = rng.choice(["top", "content", "both"])
+        target = rng.choice(ge.EVENTS)
+        content = {k: v for k, v in content.items() if k != "redacts"}
+        if shape in ("content", "both"):
+            content["redacts"] = target
+        if shape in ("top", "both"):
+            redacts = target
     return etype, content, None, redacts
 
 
@@ -134,6 +145,7 @@ def shard(ctx):
     n = (9000 if ctx.tier == "quick" else 300000) // ctx.nshards
     de_cmds, de_meta = [], []
     rt_cmds, rt_meta = [], []
+    red_cmds, red_meta = [], []
     for _ in range(n):
         kind = rng.choice(["state", "message"])
         etype, content, state_key, redacts = gen_room_event(rng, kind)
@@ -159,6 +171,9 @@ def shard(ctx):
             ev.setdefault("unsigned", {})["redacted_because"] = ge.redaction_event(rng, fmtk, ev["event_id"])
             rep.count("redacted_forms")
             nontrivial = True
+            if etype in REDACTED_WITH_FIELDS and ev_content:
+                red_cmds.append({"op": "redacted_content_roundtrip", "ev_type": etype, "content": fmt(ev_content)})
+                red_meta.append(ev_content)
         if rng.random() < 0.3:
             ev["org.example.unknown_top_level"] = {"x": [1, 2]}
             nontrivial = True
@@ -191,6 +206,45 @@ def shard(ctx):
                 rt_meta.append((c2, "respelled"))
             except TypeError:
                 pass
+    # m.room.redaction in every format, with `redacts` at the top level, inside content, or both
+    if ctx.shard == 0:
+        for fmtk in ("full", "sync"):
+            for shape in ("top", "content", "both"):
+                for reason in (False, True):
+                    c = {"reason": "spam"} if reason else {}
+                    if shape in ("content", "both"):
+                        c["redacts"] = "$target:example.org"
+                    ev = ge.envelope(rng, "m.room.redaction", c, fmtk, redacts="$target:example.org" if shape in ("top", "both") else None)
+                    for en in ENUMS_FOR[("message", fmtk)]:
+                        de_cmds.append({"op": "event_de", "enum": en, "text": fmt(ev)})
+                        de_meta.append((ev, "message", fmtk, "m.room.redaction", False, False, en, "plain", True))
+    # redacted contents that keep fields: every type x room version, and for power levels every scalar
+    # field on and around its default (a field equal to a default may be omitted on output, never altered)
+    cell = 0
+    for etype in sorted(REDACTED_WITH_FIELDS):
+        keys = [k for k in ge.STATE if ge.real_type(k) == etype]
+        for version in range(1, 12):
+            for _ in range(6 if ctx.tier == "quick" else 200):
+                if keys:
+                    c = ge.content_of(rng, ge.STATE, rng.choice(keys), p=0.8)
+                elif etype == "m.room.redaction":
+                    c = {"redacts": rng.choice(["$e:example.org", "$abc"]), "reason": "r"}
+                else:
+                    c = {"aliases": ["#a:example.org"][:rng.randint(0, 1)]}
+                reds = [x for x in redact_ref.redact_content(c, etype, version) if not isinstance(x, redact_ref.RedactError)]
+                cell += 1
+                if reds and reds[0] and ctx.mine(cell):
+                    red_cmds.append({"op": "redacted_content_roundtrip", "ev_type": etype, "content": fmt(reds[0])})
+                    red_meta.append(reds[0])
+    for version in range(1, 12):
+        for field in ("ban", "kick", "invite", "redact", "state_default", "events_default", "users_default"):
+            for val in (0, 1, 49, 50, 51, 100):
+                c = {field: val, "users": {"@a:example.org": 50}}
+                reds = [x for x in redact_ref.redact_content(c, "m.room.power_levels", version) if not isinstance(x, redact_ref.RedactError)]
+                cell += 1
+                if reds and reds[0] and ctx.mine(cell):
+                    red_cmds.append({"op": "redacted_content_roundtrip", "ev_type": "m.room.power_levels", "content": fmt(reds[0])})
+                    red_meta.append(reds[0])
     # other kinds
     other = []
     for _ in range(n // 3):
@@ -326,6 +380,34 @@ def shard(ctx):
                                   {"a": first[ck][:1500], "b": res["s1"][:1500]}, cmd)
             else:
                 first[ck] = res["s1"]
+        # ---- redacted content types that keep fields: same fixpoint / no-value-changed rules ----
+        for cmd, content, r in zip(red_cmds, red_meta, w.call_many(red_cmds)):
+            rep.count("redacted_content_roundtrips")
+            rep.judged()
+            key = "redacted:%s" % cmd["ev_type"]
+            if handle_crash(rep, r, cmd, context="redacted-content"):
+                continue
+            res = r["ok"]
+            if "s2" not in res:
+                rep.violation("content_round_trip_fails", key, {"result": res, "content": cmd["content"][:2000]}, cmd)
+                continue
+            problems = []
+            if res["s1"] != res["s2"] or not res["debug_equal"]:
+                problems.append("not a fixpoint: the second parse / serialization differs from the first (typed values equal: %s)" % res["debug_equal"])
+            try:
+                out, dups = pairs_no_dups(res["s1"])
+                if dups:
+                    problems.append("duplicate keys in output: %r" % dups[:2])
+                diff = common_paths_differ(content, out)
+                if diff:
+                    problems.append("value present in input changed at %s" % diff)
+                # (a key may be omitted from the output when it holds the field's default; whether it
+                # does is decided by comparing the typed values of the first and the second parse)
+            except Exception as e:
+                problems.append("output is not valid JSON: %s" % e)
+            if problems:
+                rep.violation("content_serialization_problem", key,
+                              {"problems": problems, "input": cmd["content"][:2000], "output": res["s1"][:2000]}, cmd)
         # ---- Raw ----
         raw_cmds, raw_meta = [], []
         for _ in range((2400 if ctx.tier == "quick" else 80000) // ctx.nshards):
